@@ -1077,7 +1077,8 @@ theorem makeTable_B_map (hmap : Spec.TokMap tkB tkB g) (data : List (List (List 
     apply foldl_congr_mem
     intro m row _
     rw [getD_map_nil, gLen_triv cxB cxB_triv, gLen_triv cxB cxB_triv, List.length_map]
-  unfold makeTable
+  simp only [makeTable_eq_core]
+  unfold makeTableCore
   simp only [List.isEmpty_map, List.foldl_map, List.length_map, hcw]
   refine ite_map_eq _ _ _ _ _ _ rfl (ite_map_eq _ _ _ _ _ _ rfl (ite_map_eq _ _ _ _ _ _ ?_ ?_))
   · exact buildTable_B_map hmap data _ _ header border hup _ hco hve hho
